@@ -38,11 +38,28 @@ ValOf(j) == CASE j.t = "i" -> IV(NumOf(j.v))
               [] j.t = "b" -> BV(j.v)
               [] OTHER -> [t |-> "r", v |-> j.v]
 
+\* objects recorded with a step: {k: "struct", fs} {k: "array", len, es} {k: "variant", tag, val}
+ObjOf(j) == CASE j.k = "struct" -> [k |-> "struct", fs |-> [i \in 1..Len(j.fs) |-> ValOf(j.fs[i])]]
+              [] j.k = "array" -> [k |-> "array", len |-> j.len, es |-> [i \in 1..Len(j.es) |-> ValOf(j.es[i])]]
+              [] OTHER -> [k |-> "variant", tag |-> j.tag, val |-> ValOf(j.val)]
+HeapOf(side) == IF Has(side, "objs") THEN [r \in DOMAIN side.objs |-> ObjOf(side.objs[r])] ELSE <<>>
+
 \* a predicted cell against an observed one; uninterpreted predictions are not compared
 IsNaNBits(b) == Decode(b).k = "nan"
-Match(p, o) == CASE p.t \in {"i", "f", "b", "r"} -> p = o
-                 [] p.t = "nan" -> o.t = "f" /\ IsNaNBits(o.v)
-                 [] OTHER -> TRUE
+Scalar(p, o) == CASE p.t \in {"i", "f", "b", "r"} -> p = o
+                  [] p.t = "nan" -> o.t = "f" /\ IsNaNBits(o.v)
+                  [] OTHER -> TRUE
+\* a predicted object against a recorded one (its components are compared as cells; a component that is itself a fresh
+\* object or an uninterpreted term is not compared further)
+ObjMatch(p, o) ==
+  /\ p.k = o.k
+  /\ CASE p.k = "struct" -> Len(p.fs) = Len(o.fs) /\ \A i \in 1..Len(p.fs) : Scalar(p.fs[i], o.fs[i])
+        [] p.k = "array" -> p.len = o.len /\ \A i \in 1..(IF Len(p.es) < Len(o.es) THEN Len(p.es) ELSE Len(o.es)) : Scalar(p.es[i], o.es[i])
+        [] OTHER -> p.tag = o.tag /\ Scalar(p.val, o.val)
+\* heap1: the objects recorded after the step
+Match(p, o, heap1) ==
+  IF p.t = "new" THEN o.t = "r" /\ (o.v \in DOMAIN heap1 => ObjMatch(p.obj, heap1[o.v]))
+  ELSE Scalar(p, o)
 Decided(p) == p.t \in {"i", "f", "b", "r", "nan"}
 
 \* ------------------------------------------------------------------ step events
@@ -84,17 +101,20 @@ MemOf(ev, side, depth, base) ==
       idx == { p[1] : p \in all }
   IN [i \in idx |-> (CHOOSE p \in all : p[1] = i)[2]]
 
-ErrName(e) == CASE e = "overflow" -> "IntegerOverflowUnderflow" [] e = "divzero" -> "DivisionByZero" [] OTHER -> "?"
+ErrName(e) == CASE e = "overflow" -> "IntegerOverflowUnderflow" [] e = "divzero" -> "DivisionByZero"
+                [] e = "oob" -> "ArrayOutOfBounds" [] OTHER -> "?"
 
 \* the checks of one step event: a set of [kind, info] records (empty = the step conforms)
 StepViol(ev) ==
   LET ins == [op |-> ev.op, args |-> StepArgs(ev)]
       m0 == MemOf(ev, ev.v0, ev.d0, ev.b0)
       m1 == MemOf(ev, ev.v1, ev.d1, ev.b0)
-      s0 == [mem |-> m0, len |-> ev.d0, base |-> ev.b0, ctl |-> Next, eff |-> <<>>, open |-> 0]
+      h1 == HeapOf(ev.v1)
+      s0 == [mem |-> m0, len |-> ev.d0, base |-> ev.b0, ctl |-> Next, eff |-> <<>>, open |-> 0, env |-> [k |-> "sym"], heap |-> HeapOf(ev.v0)]
       s1 == Exec(s0, ins)
       bad(kind, info) == {[kind |-> kind, info |-> info]}
-  IN IF s1.ctl.k = "err" THEN
+  IN IF s1.ctl.k = "skip" THEN {}
+     ELSE IF s1.ctl.k = "err" THEN
         (IF ev.st # "err" THEN bad("vm-missed-error", <<ev.op, s1.ctl.e>>)
          ELSE IF s1.ctl.e = "wrongtype" THEN {}
          ELSE IF ev.ek # ErrName(s1.ctl.e) THEN bad("vm-wrong-error-kind", <<ev.op, s1.ctl.e, ev.ek>>) ELSE {})
@@ -107,14 +127,19 @@ StepViol(ev) ==
               ELSE IF s1.ctl.k = "next" THEN (IF ev.pc1 # ev.pc + 1 THEN bad("vm-fallthrough", <<ev.op, ev.pc1>>) ELSE {})
               ELSE {})
         \cup (IF ev.st = "err" THEN {}
-              ELSE UNION { IF i < s1.len /\ ~Match(Cell(s1, i), m1[i])
+              ELSE UNION { IF i < s1.len /\ ~Match(Cell(s1, i), m1[i], h1)
                            THEN bad("vm-value", <<ev.op, i - ev.b0, Cell(s1, i), m1[i]>>) ELSE {} : i \in DOMAIN m1 })
+        \cup (IF ev.st = "err" THEN {}
+              ELSE UNION { IF r \in DOMAIN h1 /\ ~ObjMatch(s1.heap[r], h1[r])
+                           THEN bad("vm-heap", <<ev.op, s1.heap[r], h1[r]>>) ELSE {} : r \in DOMAIN s1.heap })
 
 \* cells whose predicted content was decided (coverage), and whether the step left something undecided
 StepDecided(ev) ==
   LET ins == [op |-> ev.op, args |-> StepArgs(ev)]
-      s0 == [mem |-> MemOf(ev, ev.v0, ev.d0, ev.b0), len |-> ev.d0, base |-> ev.b0, ctl |-> Next, eff |-> <<>>, open |-> 0]
-  IN Exec(s0, ins).open = 0
+      s0 == [mem |-> MemOf(ev, ev.v0, ev.d0, ev.b0), len |-> ev.d0, base |-> ev.b0, ctl |-> Next, eff |-> <<>>, open |-> 0, env |-> [k |-> "sym"],
+             heap |-> HeapOf(ev.v0)]
+      s1 == Exec(s0, ins)
+  IN s1.open = 0 /\ s1.ctl.k # "skip" /\ s1.eff = <<>>
 
 Checkable(ev) == Has(ev, "v0") /\ Modelled(ev.op) /\ ev.op \notin Resumable /\ ev.st \in {"run", "err"} /\ ArgsOk(ev)
 
@@ -195,13 +220,21 @@ AsmOk(x) == LET sg == Sig(VmName(x.op)) IN
 WindowOk(w) == \A i \in 1..Len(w) : AsmOk(w[i])
 Window(w) == [i \in 1..Len(w) |-> AsmIns(w[i])]
 
-\* "same" | "different" | "undecided" (an operation on constants the model does not evaluate, e.g. float power)
+\* "same": equal final symbolic states - the rewrite preserves behaviour for every operand value.
+\* "different": not symbolically equal AND a concrete start state exists on which the two windows, both fully evaluated by the
+\*   model, end differently (a witness: the alarm is never raised on algebra the symbolic comparison merely cannot see).
+\* "undecided": neither (e.g. an algebraic identity the model does not normalise, or an operation it does not evaluate).
+Witnesses(ev) ==
+  { env \in Envs : LET a == Run(Start(env), Window(ev.before), 1)
+                       b == Run(Start(env), Window(ev.after), 1)
+                   IN a.open = 0 /\ b.open = 0 /\ ~(a.ctl.k = "err" /\ a.ctl.e = "wrongtype") /\ ~(b.ctl.k = "err" /\ b.ctl.e = "wrongtype")
+                      /\ ~Equivalent(a, b) }
 RewriteVerdict(ev) ==
   LET a == Run(Sym0, Window(ev.before), 1)
       b == Run(Sym0, Window(ev.after), 1)
   IN IF Equivalent(a, b) THEN "same"
-     ELSE IF a.open > 0 \/ b.open > 0 THEN "undecided"
-     ELSE "different"
+     ELSE IF Witnesses(ev) # {} THEN "different"
+     ELSE "undecided"
 
 \* ------------------------------------------------------------------ asm events
 \* ev.asm: symbolic instruction, ev.vm: [op, args (numbers)], ev.ki / ev.kf: constant-table entries by index,
@@ -255,7 +288,9 @@ StepEv == /\ l <= N /\ Ev.e = "step" /\ l' = l + 1
 RewriteEv == /\ l <= N /\ Ev.e = "rewrite" /\ l' = l + 1
              /\ IF WindowOk(Ev.before) /\ WindowOk(Ev.after)
                 THEN LET v == RewriteVerdict(Ev) IN
-                     /\ viol' = Report(IF v = "different" THEN {[kind |-> "rewrite-changes-behaviour", info |-> Ev.text]} ELSE {})
+                     /\ viol' = Report(IF v = "different"
+                                       THEN {[kind |-> "rewrite-changes-behaviour", info |-> <<Ev.text, "witness", CHOOSE w \in Witnesses(Ev) : TRUE>>]}
+                                       ELSE {})
                      /\ nrw' = nrw + 1
                      /\ nrwopen' = nrwopen + (IF v = "undecided" THEN 1 ELSE 0)
                      /\ UNCHANGED nrwskip
